@@ -19,7 +19,7 @@ RULE = ("schedule exploration with real threads: for ordered pairs (A, B) of cal
         "CACHE_SIZE_LIMIT, relative phrase, search_dates in two languages, a shared long-lived DateDataParser, a Jalali call, a "
         "call that raises SettingValidationError, the default-settings call), thread A is pre-empted once when about to execute "
         "its k-th library line (sys.monitoring LINE), B runs to completion or until it blocks, A resumes. quick: per pair and "
-        "direction the first k of every distinct (file, line) location (seeded sample of 140 when there are more) + 30 seeded random k; thorough: every k of calls up to 2000 library lines, else every distinct location + a seeded sample up to 2000. Plus "
+        "direction the first k of every distinct (file, line) location (seeded sample of 140 when there are more) + 30 seeded random k; thorough: every k of calls up to 4000 library lines, else every distinct location + a seeded sample up to 4000. Plus "
         "free-running stress (8 threads x random pool calls, switch interval 1 us, seeded yield injection) and cold-start rounds "
         "(fresh interpreters whose very first library calls are made by 8 threads released by a barrier). Oracle: each call's outcome equals its "
         "fresh-process sequential outcome. non-trivial distinct = distinct realised schedules (pair, direction, k) + stress rounds.")
@@ -190,7 +190,7 @@ def run_pair(ctx, desc):
                 # every k of a short call; of a long one, the first execution of every distinct location plus a seeded
                 # sample of the remaining positions (bounded, so that the tier finishes well inside its watchdog on a
                 # loaded machine)
-                cap = 150 if slow else 2000
+                cap = 150 if slow else 4000
                 if L <= cap:
                     ks = set(range(1, L + 1))
                 else:
